@@ -7,6 +7,7 @@ From GB Require Import O2_NoDel O2_Proof.
 From GB Require Import TB_Trace TB_Link TB_Proof TB_Counter TB_HW.
 From GB Require Import C4_Lists C4_Blocks C4_Inv C4_Proof C4_Trace C4_Final.
 From GB Require Import TERM_Proof.
+From GB Require Import Frame LockInv Final RD_Base RD_Proof.
 Import ListNotations.
 Open Scope nat_scope.
 
@@ -192,3 +193,35 @@ Print Assumptions C04_end_means_no_successor.
 Print Assumptions C04_end_of_empty_scan.
 Print Assumptions C04_first_step_partial.
 Print Assumptions C04_persistent_key_reported.
+
+(* ====================== C07 (model side): reads only under lock ====================== *)
+
+(* non-interference: take two reachable states (possibly of different executions) in which thread [me] has the
+   same thread record and which agree on the lock table, the tree mutex, the allocation counter, the fields of
+   the nodes [me] holds or is being granted -- and on the root pointer only if [me] holds the tree mutex or is
+   just taking it.  Then [me] makes the same step in both: same lock granted, same events, same new program
+   counter, same lock table, and the nodes of its footprint and the nodes it allocates end up with the same
+   fields.  So a step reads nothing but its own record, the lock table, and what its locks protect. *)
+Theorem C07_reads_only_under_lock :
+  forall (K V : Type) (ltb : K -> K -> bool), SWO ltb -> forall order, Nat.even order = true -> 4 <= order ->
+  forall (progs1 progs2 : list (tid * list (cop K V))) sched1 sched2, NoDup (map fst progs1) -> NoDup (map fst progs2) ->
+  let s1 := fst (exec ltb order (init_st progs1) sched1) in
+  let s2 := fst (exec ltb order (init_st progs2) sched2) in
+  forall me th s1' acq ev,
+  get_thread me (ths s1) = Some th -> get_thread me (ths s2) = Some th ->
+  lk s1 = lk s2 -> tm s1 = tm s2 -> fresh s1 = fresh s2 ->
+  (pc_holds_T (tpc th) = true \/ (exists o, tpc th = WantT o) -> nid (tr s1) = nid (tr s2)) ->
+  cstep ltb order s1 me = Stepped s1' acq ev ->
+  agree_on (footprint s1 me acq) (tr s1) (tr s2) ->
+  exists s2',
+    cstep ltb order s2 me = Stepped s2' acq ev /\
+    get_thread me (ths s2') = get_thread me (ths s1') /\
+    lk s2' = lk s1' /\ tm s2' = tm s1' /\ fresh s2' = fresh s1' /\
+    agree_on (footprint s1 me acq ++ seq (fresh s1) (fresh s1' - fresh s1)) (tr s1') (tr s2').
+Proof.
+  exact (fun K V ltb HS order He H4 progs1 progs2 sched1 sched2 N1 N2 me th s1' acq ev =>
+    read_discipline K V ltb order He _ _ me th s1' acq ev
+      (final_BigInv_reachable K V ltb HS order He H4 progs1 sched1 N1)
+      (final_BigInv_reachable K V ltb HS order He H4 progs2 sched2 N2)).
+Qed.
+Print Assumptions C07_reads_only_under_lock.
